@@ -77,7 +77,7 @@ Definition event_of (tabs : list tsrv) (e : tevent) : option event :=
    Conn.Stream.IsEncrypted() *)
 Record oinv := {
   o_handler : N; o_raw : bool; o_cmd : cmd;
-  o_neg : option (bool * bool * user * bool * sid);
+  o_neg : option (bool * bool * user * bool * sid * list cmd);   (* ..., parsed Negotiation.ValidCommands *)
   o_enc : bool
 }.
 (* per connection: the invocations in order, and how ServeConn ended
@@ -87,11 +87,18 @@ Definition oconn := (list oinv * N)%type.
 Definition end_code (e : cend) : N :=
   match e with EClosedOk => 0 | EClosedErr => 1 | EOpen => 2 | EPending => 3 end.
 
-Definition neg_eqb (m : option session) (o : option (bool * bool * user * bool * sid)) : bool :=
+Fixpoint zlist_eqb (a b : list cmd) : bool :=
+  match a, b with
+  | [], [] => true
+  | x :: a', y :: b' => Z.eqb x y && zlist_eqb a' b'
+  | _, _ => false
+  end.
+
+Definition neg_eqb (m : option session) (o : option (bool * bool * user * bool * sid * list cmd)) : bool :=
   match m, o with
   | None, None => true
-  | Some n, Some (a, e, u, r, s) =>
-      Bool.eqb (n_authn n) a && Bool.eqb (n_enc n) e && (n_user n =? u) && Bool.eqb (n_resumed n) r && (n_sid n =? s)
+  | Some n, Some (a, e, u, r, s, v) =>
+      Bool.eqb (n_authn n) a && Bool.eqb (n_enc n) e && (n_user n =? u) && Bool.eqb (n_resumed n) r && (n_sid n =? s) && zlist_eqb (n_valid n) v
   | _, _ => false
   end.
 
@@ -141,7 +148,7 @@ Definition check_case (c : case) : bool :=
       forallb (fun q =>
         let '(c, peer, neg, obs, oreg, oraw) := q in
         let n := match neg with
-                 | Some (a, e, u) => Some {| n_cmd := c; n_authn := a; n_enc := e; n_user := u; n_resumed := false; n_sid := 0 |}
+                 | Some (a, e, u) => Some {| n_cmd := c; n_authn := a; n_enc := e; n_user := u; n_resumed := false; n_sid := 0; n_valid := [] |}
                  | None => None end in
         Bool.eqb (session_satisfies s c peer n) obs
         && match lookup (s_handlers s) c with
